@@ -40,12 +40,15 @@ pub fn check_parse(msg: &[u8], time_limit_ms: Option<u128>) -> (Vec<Finding>, bo
     }
     if let Some(lim) = time_limit_ms {
         if dt.as_millis() > lim {
-            // re-measure once: a scheduling hiccup must not become a verdict
-            let t1 = Instant::now();
-            let _ = guarded(|| Packet::parse(msg).is_ok());
-            let dt2 = t1.elapsed();
-            if dt2.as_millis() > lim {
-                out.push(finding("C01|time", format!("Packet::parse of {} bytes took {:?} and {:?} (limit {} ms)", msg.len(), dt, dt2, lim), mk()));
+            // re-measure: a scheduling hiccup must not become a verdict; the best of four counts
+            let mut best = dt;
+            for _ in 0..3 {
+                let t1 = Instant::now();
+                let _ = guarded(|| Packet::parse(msg).is_ok());
+                best = best.min(t1.elapsed());
+            }
+            if best.as_millis() > lim {
+                out.push(finding("C01|time", format!("Packet::parse of {} bytes took at best {:?} in four runs (limit {} ms)", msg.len(), best, lim), mk()));
             }
         }
     }
